@@ -1,6 +1,6 @@
 """Probe: reference interpreter for HiD over the typed AST, symbolic values, decision-vector DFS."""
 import sys
-sys.path.insert(0, '/repo')
+if not any(p.endswith('fixed') for p in sys.path): sys.path.insert(0, '/repo')
 import z3
 from hidc import ast as A
 from hidc.ast import DataType as D, ArrayType
@@ -88,6 +88,27 @@ class RI:
         self.trace.append(('b', v)); self.pos += 1
         self.conds.append(c if v else z3.Not(c))
         return v
+    def concretize(self, e):
+        if isc(e): return e
+        self.labels.append(('v', str(e)[:40]))
+        if self.pos < len(self.prefix):
+            k, v = self.prefix[self.pos]; assert k == 'v', (k, v)
+        else:
+            vals = []
+            self.solver.push(); self.solver.add(*self.conds)
+            while len(vals) <= 16 and self.solver.check() == z3.sat:
+                self.nq += 1
+                x = self.solver.model().eval(self.Z(e), True).as_long(); vals.append(x); self.solver.add(self.Z(e) != x)
+            self.solver.pop()
+            if not vals: raise EndEx('infeasible')
+            if len(vals) > 16: raise EndEx('bound')
+            for x in vals[1:]:
+                self.work.append((self.trace + [('v', x)], list(self.carried), list(self.labels)))
+            v = vals[0]
+        self.trace.append(('v', v)); self.pos += 1
+        self.conds.append(self.Z(e) == v)
+        return v
+
     def choice(self, label):
         self.labels.append(('c', label))
         if self.pos < len(self.prefix):
@@ -176,7 +197,7 @@ class RI:
             n = 0
             while self.branch(self.truth(b.cond)):
                 n += 1
-                if n > 200: raise EndEx('bound')
+                if n > int(__import__('os').environ.get('RILOOP', '200')): raise EndEx('bound')
                 try: self.block(b.body)
                 except BreakEx: break
                 except ContinueEx: pass
@@ -246,12 +267,14 @@ class RI:
             if not self.branch(self.cmp('ltu', idx, length)): self.fault('out_of_bounds')
 
     def select(self, arr, idx):
+        idx = self.concretize(idx)
         if isc(idx): return arr.cells[idx]
         v = arr.cells[-1]
         for k in range(len(arr.cells) - 2, -1, -1):
             v = z3.If(self.Z(idx) == k, self.Z(arr.cells[k]), self.Z(v))
         return self.simp(v)
     def store(self, arr, idx, v):
+        idx = self.concretize(idx)
         if isc(idx): arr.cells[idx] = v; return
         for k in range(len(arr.cells)):
             arr.cells[k] = self.simp(z3.If(self.Z(idx) == k, self.Z(v), self.Z(arr.cells[k])))
